@@ -16,7 +16,8 @@ func init() {
 // the minimum, including the scale-from-zero cases.
 // shape: [mode (0 utilisation, 1 from zero with cached node size, 2 from zero, nothing cached,
 //
-//	3 from zero after the node size changed between two earlier scans), nodes, tainted nodes, failure budget]
+//	3 from zero after the node size changed between two earlier scans,
+//	4 from zero after the only scan that saw nodes was refused for exceeding max_nodes), nodes, tainted nodes, failure budget]
 func VerifHarness_C05_scan() {
 	mode, N, TN, F := verifShape(0), verifShape(1), verifShape(2), verifShape(3)
 	w := newWorld(0)
@@ -26,9 +27,16 @@ func VerifHarness_C05_scan() {
 	T := int64(th.up)
 	// the maxima are out of reach: the clamp is C04's subject
 	o.MinNodes, o.MaxNodes = 0, 10000000
+	if mode == 4 {
+		o.MaxNodes = N - 1 // the scan that observes the nodes finds more of them than max_nodes and is refused
+	}
 	g := w.addGroup(o, 0, 10000000, 0)
 	cpuReq := verifInt("cpuReq", 0, 40*w.cpuPerNode)
 	memReq := verifInt("memReq", 0, 40*w.memPerNode)
+	if mode == 4 {
+		// what is asked later fits below the maximum (the clamp is C04's subject)
+		verifAssume(verifAnd(100*cpuReq <= T*w.cpuPerNode*int64(N-1), 100*memReq <= T*w.memPerNode*int64(N-1)))
+	}
 	for i := 0; i < N; i++ {
 		w.addNode(g, tcNone, false, 0, 0, int64(5000+i), true)
 	}
@@ -52,7 +60,7 @@ func VerifHarness_C05_scan() {
 			}
 		}
 	}
-	if mode == 1 || mode == 3 {
+	if mode == 1 || mode == 3 || mode == 4 {
 		// a scan observes the (last) node size; then every node goes away
 		_ = w.ctrl.RunOnce()
 		for _, n := range w.nodes {
@@ -88,7 +96,7 @@ func VerifHarness_C05_scan() {
 		if TN > 0 {
 			verifReachIf("C05.scan-untainted-and-bought", verifAnd(j.untaints > 0, j.added > 0))
 		}
-	case 1, 3:
+	case 1, 3, 4:
 		// from zero: the last observed node size stands in for capacity
 		need := verifOr(cpuReq > 0, memReq > 0)
 		suffCPU := 100*cpuReq <= T*w.cpuPerNode*brought
@@ -102,6 +110,9 @@ func VerifHarness_C05_scan() {
 		verifReachIf("C05.zero-cached", brought > 1)
 		if mode == 3 {
 			verifReach("C05.zero-after-size-change")
+		}
+		if mode == 4 {
+			verifReachIf("C05.zero-after-refused-scan", brought > 1)
 		}
 	case 2:
 		need := verifOr(cpuReq > 0, memReq > 0)
